@@ -30,6 +30,9 @@ WHOLE_ARRAY_ITER_CALLS = (
 )
 
 
+SLICE_LEN = "core::slice::<impl [T]>::len"
+
+
 def U(rule, msg, fn=None):
     return Unrecognised(rule, msg, fn.path if fn else None, fn.line if fn else None)
 
@@ -131,9 +134,7 @@ def is_getter_of_item(F, t, loop, want_ty):
 
 def is_code_of(F, t, inner_pred, enum_path):
     """t == (u8::from(inner) as usize) or u8::from(inner) or usize::from(u8::from(inner))"""
-    s = t
-    if s[0] == "cast" and s[1] == "IntToInt":
-        s = s[2]
+    s = P.unwiden(t)
     if s[0] == "call" and is_code_call(F, s[1], enum_path) and len(s[2]) == 1:
         return inner_pred(s[2][0])
     return False
@@ -212,7 +213,7 @@ def analyse_finder(ctx, F, fn):
 
     def allowed(p, t):
         return (L.is_next_call(t) or p in WHOLE_ARRAY_ITER_CALLS or card_getter(F, p, "card::suit::Suit")
-                or is_code_call(F, p, SUIT))
+                or is_code_call(F, p, SUIT) or P.is_widening_from(p))
     check_calls_whitelisted(F, fn, allowed, rule)
 
     def is_suit_of_item(t):
@@ -335,7 +336,8 @@ def analyse_flush_hash(ctx, F, fn):
 
     def allowed(p, t):
         return (L.is_next_call(t) or p in WHOLE_ARRAY_ITER_CALLS or p in ORDER_ONLY or card_getter(F, p, SUIT)
-                or card_getter(F, p, RANK) or is_eq_call(p))
+                or card_getter(F, p, RANK) or is_eq_call(p) or is_code_call(F, p, RANK)
+                or (p not in F.fns and p.rsplit("::", 1)[-1] in ("from", "into") and P.is_widening_from(p)))
     check_calls_whitelisted(F, fn, allowed, rule)
     if pr.stores:
         raise U(rule, "unexplained stores through projections", fn)
@@ -402,7 +404,46 @@ def analyse_flush_hash(ctx, F, fn):
             return None
     # weight table from the rank switch arms
     if rank_switch is None:
-        raise U(rule, "rank weights are not given by a match on the rank", fn)
+        # computed weight (`1 << (12 - code(rank))`): fold the addend for each of the 13 ranks with the u8 code table
+        codes, _ = code_table(F, RANK)
+
+        def fold(t, rk):
+            t = P.strip(t, calls=False)
+            c = P.const_int(t)
+            if c is not None:
+                return c
+            if t[0] == "cast":
+                return fold(t[2], rk)
+            if t[0] == "bin":
+                a, b_ = fold(t[2], rk), fold(t[3], rk)
+                if a is None or b_ is None:
+                    return None
+                op = t[1]
+                if op == "Add":
+                    return a + b_
+                if op == "Mul":
+                    return a * b_
+                if op == "Sub" and a >= b_:
+                    return a - b_
+                if op == "Shl" and 0 <= b_ < 16:
+                    return a << b_
+                if op == "BitOr":
+                    return a | b_
+                if op == "BitAnd":
+                    return a & b_
+                return None
+            if t[0] == "call" and len(t[2]) == 1:
+                if is_code_call(F, t[1], RANK) and is_getter_of_item(F, t[2][0], loop, RANK):
+                    return codes[rk]
+                if P.is_widening_from(t[1]):
+                    return fold(t[2][0], rk)
+            return None
+        weights = {rk: fold(W, rk) for rk in STRENGTH}
+        if any(v is None or not (0 <= v < (1 << 16)) for v in weights.values()):
+            raise U(rule, f"rank weights are neither a match on the rank nor a foldable expression of its code: {P.show(W)[:120]}", fn)
+        ctx.ok(rule, {"fn": fn.path, "fold": "Σ weight(rank) over all 7 cards with suit == detected suit",
+                      "weights": weights, "form": "computed from the rank code"}, sample=True)
+        return weights
     w_alts = P.alts(W)
     sw = fn.blocks[rank_switch]["term"]
     weights = {}
@@ -517,7 +558,8 @@ def analyse_rainbow_hash(ctx, F, fn):
     dp = [None]
 
     def allowed(p, t):
-        if L.is_next_call(t) or p in WHOLE_ARRAY_ITER_CALLS or card_getter(F, p, RANK) or is_code_call(F, p, RANK):
+        if L.is_next_call(t) or p in WHOLE_ARRAY_ITER_CALLS or card_getter(F, p, RANK) or is_code_call(F, p, RANK) \
+                or P.is_widening_from(p) or p == SLICE_LEN:
             return True
         f2 = F.fns.get(p)
         if f2 is not None and f2.arg_count == 3 and not f2.impl and dp[0] in (None, p):
@@ -567,10 +609,23 @@ def analyse_rainbow_hash(ctx, F, fn):
     r_init = [x for x in r_alts if P.const_int(x) is not None]
     r_inc = [x for x in r_alts if x[0] == "bin" and x[1] == "Add"]
     r_dec = [x for x in r_alts if x[0] == "bin" and x[1] == "Sub"]
-    if len(r_alts) != 3 or len(r_init) != 1 or P.const_int(r_init[0]) != 0 or len(r_inc) != 1 or len(r_dec) != 1:
-        raise U(rule, f"remaining counter is not `0; += 1 per card; -= len`: {P.show(pr.local(R))}", fn)
-    if r_inc[0][2] != ("self", R) or P.const_int(r_inc[0][3]) != 1:
-        raise U(rule, "remaining counter increment is not += 1", fn)
+    def is_whole_len(t):
+        # `cards.len()` of the card array parameter: the number of cards the counting loop visits
+        u = P.unwiden(t)
+        if u[0] == "call" and u[1] == SLICE_LEN and len(u[2]) == 1:
+            a0 = P.strip(u[2][0], calls=False)
+            while a0[0] == "cast" and a0[1] == "PointerCoercion":
+                a0 = P.strip(a0[2], calls=False)
+            return a0 == ("param", 1)
+        return False
+    r_len = [x for x in r_alts if is_whole_len(x)]
+    if len(r_alts) == 2 and len(r_len) == 1 and len(r_dec) == 1:
+        pass        # remaining = cards.len(); -= len   (the counting loop visits every card once: same number)
+    else:
+        if len(r_alts) != 3 or len(r_init) != 1 or P.const_int(r_init[0]) != 0 or len(r_inc) != 1 or len(r_dec) != 1:
+            raise U(rule, f"remaining counter is not `0; += 1 per card; -= len` or `cards.len(); -= len`: {P.show(pr.local(R))}", fn)
+        if r_inc[0][2] != ("self", R) or P.const_int(r_inc[0][3]) != 1:
+            raise U(rule, "remaining counter increment is not += 1", fn)
     # len read
     def is_len(t):
         s = P.strip(t)
@@ -652,8 +707,8 @@ def analyse_rainbow_hash(ctx, F, fn):
                                   f"ranks still holding cards are dropped from the hash",
                                   fn=fn.path, file=fn.file, line=fn.blocks[b]["line"])
                     return None
-                if not fn.cfg.dominates(dec_block, b):
-                    raise U(rule, "break test precedes the decrement", fn)
+                # (wherever the test sits in the iteration: `remaining` never undercounts the cards of the ranks not yet
+                # subtracted, so leaving only under remaining == 0 drops nothing)
                 if going and tgt not in walk_loop.body:
                     raise U(rule, "loop left while cards remain", fn)
             else:
